@@ -11,6 +11,10 @@
    Capabilities from DECRPM replies: what every reply value establishes (model/CapReplies.v) and
    that the model of handleSequence + New's loop (model/Input.v) reports exactly that, for all
    lists of reports.
+   Quirks (model/Quirks.v): terminal identity (XTVERSION / tertiary-DA replies) x environment
+   variables -> corrected flags in closed form, and New's order quirks -> enableModes: modes set
+   at start-up and after Resume, reported capabilities and the width method are those of one and
+   the same flag set, for every environment and reply list (theorems C07_quirks_...).
    Still assumed (trusted base): the Go compiler evaluates the expression in binary64 without
    fusing multiply and add (true on amd64 with GOAMD64=v1; the differential run compares bit
    patterns of the same expression compiled by the same toolchain). *)
@@ -200,3 +204,88 @@ Proof. repeat split. Qed.
 (* non-vacuity: an RGB colour that is not a palette entry *)
 Example C07_example : is_rgb (rgb_color 1 0 0) = true /\ as_index (rgb_color 1 0 0) = index_color 16.
 Proof. vm_compute. split; reflexivity. Qed.
+
+From Vx Require Import model.Parser model.Quirks proofs.QuirksProofs.
+
+(* ---- quirks: terminal identity x environment -> ONE corrected flag set ---- *)
+
+(* New's reply loop, for EVERY list of replies (DECRPM reports, XTVERSION replies, tertiary-DA
+   replies of either kind, any number, any order) and either outcome of the explicit-width probe:
+   the loop ends at the DA1 reply and has learned: Unicode core iff some report advertises 2027;
+   explicit width iff the probe said so; styled underlines iff some tertiary-DA reply is VTE's;
+   and the terminal's name is the text of the LAST XTVERSION reply - a tertiary-DA reply never
+   names the terminal. *)
+Theorem C07_startup_identity_and_flags : forall (ew : bool) (rs : list sreply),
+  exists su, collected ew rs = Some su /\
+    Input.c_unicode (Input.su_caps su) = spec_adv2027 rs /\
+    Input.c_explicit (Input.su_caps su) = ew /\
+    Input.c_nozwj (Input.su_caps su) = false /\
+    Input.c_smulx (Input.su_caps su) = spec_vte rs /\
+    Input.su_termid su = spec_termid [] rs.
+Proof. exact collected_spec. Qed.
+Print Assumptions C07_startup_identity_and_flags.
+
+(* applyQuirks (identity rules, then the environment rules in source order) in closed form, for
+   every environment and every state of New: it changes neither the name nor styled underlines,
+   and the three width flags become
+     unicode core   = FORCE_UNICODE or (not FORCE_WCWIDTH and (reported or name = "tmux 3.4"))
+     explicit width = probed and not FORCE_WCWIDTH and not FORCE_NOZWJ
+     no-ZWJ         = not DISABLE_NOZWJ and (FORCE_NOZWJ or already set or name starts with "kitty"). *)
+Theorem C07_quirks_closed_form : forall (env : qenv) (su : Input.startup),
+  let su' := apply_quirks_env env su in
+  let id := Input.su_termid su in
+  Input.su_termid su' = id /\ Input.c_smulx (Input.su_caps su') = Input.c_smulx (Input.su_caps su) /\
+  flags_of (Input.su_caps su') =
+    mkW (e_unicode env || (negb (e_wcwidth env) && (Input.c_unicode (Input.su_caps su) || zlist_eqb id s_tmux34)))
+        (Input.c_explicit (Input.su_caps su) && negb (e_wcwidth env) && negb (e_nozwj env))
+        (negb (e_no_nozwj env) && (e_nozwj env || Input.c_nozwj (Input.su_caps su) || Input.prefixb s_kitty id)).
+Proof. exact apply_quirks_env_closed. Qed.
+Print Assumptions C07_quirks_closed_form.
+
+(* ONE AND THE SAME flag set.  For every environment, probe outcome, reply list and probe
+   graphemes, the model of New (loop, quirks, THEN enterAltScreen/enableModes) + Suspend + Resume +
+   Close yields: the name and the flags of the specification; the same flags after Resume; mode
+   2027 set in New exactly when `unicode core and not explicit width` holds of THE REPORTED flags,
+   reset in Suspend, set again in Resume, reset in Close exactly then; and every probe measured
+   in both sessions with the method the reported flags select.  In particular
+   unicode method <=> unicode core or explicit width, and mode 2027 set <=> unicode core reported
+   and not explicit width, in the first session and after Suspend/Resume. *)
+Theorem C07_quirks_one_flag_set : forall (env : qenv) (ew : bool) (rs : list sreply) (probes : list (Z * Z * Z)),
+  exists o, quirk_model env ew rs probes = Some o /\
+    o_termid o = spec_termid [] rs /\ o_smulx o = spec_vte rs /\
+    o_flags o = spec_flags env ew rs /\ o_flags2 o = o_flags o /\
+    o_counts o = phase_counts (b2n (uses_2027 (o_flags o))) (o_flags o) /\
+    o_w1 o = map (probe_width (width_method (w_unicode (o_flags o)) (w_explicit (o_flags o)) (w_nozwj (o_flags o)))) probes /\
+    o_w2 o = o_w1 o.
+Proof. exact quirk_model_spec. Qed.
+Print Assumptions C07_quirks_one_flag_set.
+
+(* the model's output always satisfies the predicate the differential run evaluates on the
+   implementation's observation, and an observation equal to the model's cannot raise an alarm *)
+Theorem C07_quirks_model_satisfies_predicate : forall env ew rs probes,
+  (exists o, quirk_model env ew rs probes = Some o /\ qobs_ok env ew rs probes o = true) /\
+  (forall o, c07_quirk_mismatches [(env, ew, rs, probes, o)] = [] -> c07_quirk_violations [(env, ew, rs, probes, o)] = []).
+Proof. intros env ew rs probes. split; [apply quirk_model_ok|intros o; apply quirk_agree_implies_ok]. Qed.
+Print Assumptions C07_quirks_model_satisfies_predicate.
+
+(* The order of New matters: with enableModes BEFORE applyQuirks, a terminal named "tmux 3.4" that
+   does not report 2027 ends with Unicode core reported (and the Unicode width method) while mode
+   2027 was not set in New - set only by a later Resume, and reset for a mode never set. *)
+Theorem C07_quirks_order_matters :
+  exists o, quirk_model_steps [NEnable; NQuirks] env0 false tmux34_replies [] = Some o /\
+            qobs_ok env0 false tmux34_replies [] o = false /\
+            w_unicode (o_flags o) = true /\ o_counts o = [(0, 0); (0, 1); (1, 0); (0, 1)].
+Proof. exact quirks_after_enable_refuted. Qed.
+Print Assumptions C07_quirks_order_matters.
+
+(* examples: kitty that also answers the tertiary DA query with a unit id stays kitty (no-ZWJ
+   method); FORCE_WCWIDTH on a terminal reporting 2027: per code point, mode 2027 never written *)
+Example C07_quirks_example :
+  let kitty := SXtversion [107; 105; 116; 116; 121; 40; 48; 46; 51; 53; 41] in
+  let unit := SDa3 [48; 48; 48; 48; 48; 48; 48; 48] in
+  spec_flags env0 false [kitty; unit] = mkW false false true /\
+  spec_termid [] [kitty; unit] = [107; 105; 116; 116; 121; 40; 48; 46; 51; 53; 41] /\
+  spec_flags (mkQenv true false false false) true [SRpm 2027 (RpmVal 2)] = mkW false false false /\
+  (exists o, quirk_model (mkQenv true false false false) true [SRpm 2027 (RpmVal 2)] [] = Some o /\
+             o_counts o = [(0, 0); (0, 0); (0, 0); (0, 0)]).
+Proof. repeat split. eexists. split; [vm_compute; reflexivity|reflexivity]. Qed.
